@@ -441,7 +441,11 @@ func (st *State) convert(x Value, from, to types.Type) Value {
 			switch a := x.(type) {
 			case Int:
 				if a.T != nil {
-					unsupported("symbolic int to float conversion")
+					// floats only feed metrics in the code under test; the value is not modelled
+					if st.w != nil {
+						st.w.approx["symbolic integer converted to float yields 0.0 (floats feed metrics only)"] = true
+					}
+					return Float{0}
 				}
 				if a.Signed {
 					return Float{float64(a.sval())}
